@@ -14,7 +14,7 @@ use std::io::{Read as _R2, Write as _W2};
 use std::sync::{Arc, Mutex, atomic::{AtomicUsize, AtomicBool, Ordering}};
 
 #[derive(Clone, Default)]
-struct Script { status: u16, body: String, mode: u8 }   // mode 0 normal, 1 close before headers, 2 close after headers, 3 truncated body
+struct Script { status: u16, body: String, mode: u8 }   // mode 0 normal, 1 close before headers, 2 close after headers, 3 truncated body, 4 chunked
 struct Shared { script: Mutex<Script>, log: Mutex<Vec<String>>, accepts: AtomicUsize, stop: AtomicBool }
 
 fn b64(data: &[u8]) -> String {
@@ -64,6 +64,24 @@ fn handle(mut s: std::net::TcpStream, sh: &Shared) {
     let reason = match script.status { 200 => "OK", 201 => "Created", 204 => "No Content", 400 => "Bad Request", 401 => "Unauthorized",
         403 => "Forbidden", 404 => "Not Found", 500 => "Internal Server Error", 503 => "Service Unavailable", _ => "Status" };
     let b = script.body.as_bytes();
+    if script.mode == 4 {
+        // the same reply with chunked transfer coding, in three chunks
+        let head = format!("HTTP/1.1 {} {}\r\nContent-Type: text/xml; charset=utf-8\r\nTransfer-Encoding: chunked\r\nConnection: close\r\n\r\n", script.status, reason);
+        let _ = s.write_all(head.as_bytes());
+        let n = b.len();
+        let cuts = [0, n / 3, 2 * n / 3, n];
+        for w in cuts.windows(2) {
+            let part = &b[w[0]..w[1]];
+            if part.is_empty() { continue; }
+            let _ = s.write_all(format!("{:x}\r\n", part.len()).as_bytes());
+            let _ = s.write_all(part);
+            let _ = s.write_all(b"\r\n");
+            let _ = s.flush();
+        }
+        let _ = s.write_all(b"0\r\n\r\n");
+        let _ = s.flush();
+        return;
+    }
     let declared = if script.mode == 3 { b.len() + 64 } else { b.len() };
     let head = format!("HTTP/1.1 {} {}\r\nContent-Type: text/xml; charset=utf-8\r\nContent-Length: {}\r\nConnection: close\r\n\r\n", script.status, reason, declared);
     let _ = s.write_all(head.as_bytes());
